@@ -91,7 +91,7 @@ type c18World struct {
 	reg     map[string]*CRLSpec
 }
 
-func genC18(t *Tape) *c18Scenario {
+func genC18(t *Tape, hostile bool) *c18Scenario {
 	sc := &c18Scenario{}
 	sc.NoCache = t.Bool(12)
 	sc.Discard = t.Bool(50)
@@ -122,6 +122,10 @@ func genC18(t *Tape) *c18Scenario {
 					return Fault{}
 				}
 				k := []int{FConnErr, FStall, FStatus, FRedirect, FEmpty, FTruncate, FBodyErr, FBodyStall, FGarbage}[t.Choose(9)]
+				if hostile && t.Bool(4) {
+					// 32 MiB bodies cost ~40 ms each: rare
+					k = FOversize + t.Choose(2)
+				}
 				f := Fault{Kind: k}
 				switch k {
 				case FStatus:
@@ -659,7 +663,7 @@ func describeC18(sc *c18Scenario) any {
 }
 
 func runC18(t *Tape, st *Stats, tier string) *RunResult {
-	sc := genC18(t)
+	sc := genC18(t, false)
 	rr := &RunResult{}
 	obs := execC18(sc)
 	st.Bubbles++
